@@ -7,6 +7,14 @@
 //! the independent engine `otlayout`. A disagreement is re-read by a second, much simpler
 //! table walker (module `tw`, read-fonts typed tables only) before it is reported; if the two
 //! readers of the binary disagree with each other that is a machinery problem, not a verdict.
+//!
+//! Families of programs: A1/A2/A3 (one to three lookups from a rule alphabet per lookup type),
+//! B (registration under script/language statements), I (several contextual rules with in-line
+//! replacements whose marked classes are equal / overlapping / disjoint), F (lookup flags with
+//! mark filtering sets and mark attachment types changing between runs of rules), G (grids of
+//! class tuples in one contextual lookup, so that each of the subtable formats 1, 2 and 3 of
+//! GSUB 5/6 is chosen by the compiler for some program; the formats are read back from the
+//! binary and counted in the evidence).
 use fea_rs::{
     GlyphMap,
     compile::{Compiler, NopFeatureProvider, NopVariationInfo},
@@ -28,12 +36,14 @@ use vcore::{Reporter, Tier};
 // =============================================================== second reader
 
 /// A deliberately small second reading of the binary: exactly the lookup types the generator
-/// can produce (GSUB 1, 2, 4, 5, 6; GPOS 1, 2), flag IgnoreMarks only.
+/// can produce (GSUB 1, 2, 4, 5, 6; GPOS 1, 2); lookup flags: the three Ignore* bits, mark
+/// attachment type, mark filtering set.
 mod tw {
     use std::collections::BTreeSet;
     use write_fonts::read::{
         FontRef, ReadError, TableProvider,
         tables::{
+            gdef::MarkGlyphSets,
             gpos::{PairPos, PositionSubtables, SinglePos, ValueRecord},
             gsub::{SingleSubst, SubstitutionSubtables},
             layout::{
@@ -54,6 +64,15 @@ mod tw {
     pub struct Walker<'a> {
         font: FontRef<'a>,
         classes: Option<ClassDef<'a>>,
+        attach: Option<ClassDef<'a>>,
+        mark_sets: Option<MarkGlyphSets<'a>>,
+    }
+
+    /// What of a lookup decides which glyphs it does not see.
+    #[derive(Clone, Copy)]
+    struct Flt {
+        flag: u16,
+        set: Option<u16>,
     }
 
     #[derive(Clone)]
@@ -113,26 +132,92 @@ mod tw {
     impl<'a> Walker<'a> {
         pub fn new(bytes: &'a [u8]) -> Result<Self, String> {
             let font = FontRef::new(bytes).map_err(|x| format!("sfnt: {x}"))?;
-            let classes = match font.gdef() {
-                Ok(g) => match g.glyph_class_def() {
-                    Some(Ok(c)) => Some(c),
-                    Some(Err(x)) => return Err(e(x)),
-                    None => None,
-                },
-                Err(_) => None,
-            };
-            Ok(Walker { font, classes })
+            let (mut classes, mut attach, mut mark_sets) = (None, None, None);
+            if let Ok(g) = font.gdef() {
+                if let Some(c) = g.glyph_class_def() {
+                    classes = Some(c.map_err(e)?);
+                }
+                if let Some(c) = g.mark_attach_class_def() {
+                    attach = Some(c.map_err(e)?);
+                }
+                if let Some(c) = g.mark_glyph_sets_def() {
+                    mark_sets = Some(c.map_err(e)?);
+                }
+            }
+            Ok(Walker { font, classes, attach, mark_sets })
         }
 
-        fn skipped(&self, flag: u16, g: u16) -> Result<bool, String> {
-            if flag & !0x0009 != 0 {
+        fn skipped(&self, f: Flt, g: u16) -> Result<bool, String> {
+            let flag = f.flag;
+            if flag & 0x00E0 != 0 {
                 return Err(format!("lookup flag {flag:#x} not supported by the second reader"));
             }
-            Ok(flag & 0x0008 != 0
-                && self.classes.as_ref().map(|c| c.get(gid16(g))).unwrap_or(0) == 3)
+            let class = self.classes.as_ref().map(|c| c.get(gid16(g))).unwrap_or(0);
+            if class >= 1 && class <= 3 && flag & (1 << class) != 0 {
+                return Ok(true); // 0x2 base, 0x4 ligature, 0x8 mark
+            }
+            if class != 3 {
+                return Ok(false);
+            }
+            if flag & 0x0010 != 0 {
+                let set = f.set.ok_or("UseMarkFilteringSet without a set index")?;
+                let sets = self.mark_sets.as_ref().ok_or("UseMarkFilteringSet without GDEF mark glyph sets")?;
+                let cov = sets.coverages().get(set as usize).map_err(e)?;
+                return Ok(cov.get(gid16(g)).is_none());
+            }
+            let want = flag >> 8;
+            if want != 0 {
+                let have = self.attach.as_ref().map(|c| c.get(gid16(g))).unwrap_or(0);
+                return Ok(have != want);
+            }
+            Ok(false)
         }
 
-        fn next_visible(&self, buf: &[Glyph], from: usize, flag: u16) -> Result<Option<usize>, String> {
+        /// (lookup type, subtable format, number of subtables) of every contextual GSUB
+        /// lookup; format 0 = subtables of different formats in one lookup.
+        pub fn context_formats(&self) -> Result<Vec<(u8, u8, usize)>, String> {
+            let mut out = vec![];
+            let one = |fs: Vec<u8>, ty: u8, out: &mut Vec<(u8, u8, usize)>| {
+                let f = if fs.iter().all(|x| *x == fs[0]) { fs[0] } else { 0 };
+                out.push((ty, f, fs.len()));
+            };
+            if let Ok(t) = self.font.gsub() {
+                for l in t.lookup_list().map_err(e)?.lookups().iter() {
+                    match l.map_err(e)?.subtables().map_err(e)? {
+                        SubstitutionSubtables::Contextual(sts) => {
+                            let mut fs = vec![];
+                            for st in sts.iter() {
+                                fs.push(match st.map_err(e)? {
+                                    SequenceContext::Format1(_) => 1,
+                                    SequenceContext::Format2(_) => 2,
+                                    SequenceContext::Format3(_) => 3,
+                                });
+                            }
+                            if !fs.is_empty() {
+                                one(fs, 5, &mut out);
+                            }
+                        }
+                        SubstitutionSubtables::ChainContextual(sts) => {
+                            let mut fs = vec![];
+                            for st in sts.iter() {
+                                fs.push(match st.map_err(e)? {
+                                    ChainedSequenceContext::Format1(_) => 1,
+                                    ChainedSequenceContext::Format2(_) => 2,
+                                    ChainedSequenceContext::Format3(_) => 3,
+                                });
+                            }
+                            if !fs.is_empty() {
+                                one(fs, 6, &mut out);
+                            }
+                        }
+                        _ => {}
+                    }
+                }
+            }
+            Ok(out)
+        }
+
+        fn next_visible(&self, buf: &[Glyph], from: usize, flag: Flt) -> Result<Option<usize>, String> {
             for i in from..buf.len() {
                 if !self.skipped(flag, buf[i].gid)? {
                     return Ok(Some(i));
@@ -141,7 +226,7 @@ mod tw {
             Ok(None)
         }
 
-        fn prev_visible(&self, buf: &[Glyph], before: usize, flag: u16) -> Result<Option<usize>, String> {
+        fn prev_visible(&self, buf: &[Glyph], before: usize, flag: Flt) -> Result<Option<usize>, String> {
             for i in (0..before).rev() {
                 if !self.skipped(flag, buf[i].gid)? {
                     return Ok(Some(i));
@@ -264,13 +349,13 @@ mod tw {
             Ok(buf)
         }
 
-        fn flag_of(&self, gsub: bool, li: u16) -> Result<u16, String> {
+        fn flag_of(&self, gsub: bool, li: u16) -> Result<Flt, String> {
             if gsub {
                 let l = self.font.gsub().map_err(e)?.lookup_list().map_err(e)?.lookups().get(li as usize).map_err(e)?;
-                Ok(l.lookup_flag().to_bits())
+                Ok(Flt { flag: l.lookup_flag().to_bits(), set: l.mark_filtering_set() })
             } else {
                 let l = self.font.gpos().map_err(e)?.lookup_list().map_err(e)?.lookups().get(li as usize).map_err(e)?;
-                Ok(l.lookup_flag().to_bits())
+                Ok(Flt { flag: l.lookup_flag().to_bits(), set: l.mark_filtering_set() })
             }
         }
 
@@ -305,7 +390,7 @@ mod tw {
             buf: &[Glyph],
             i: usize,
             preds: &[Pred],
-            flag: u16,
+            flag: Flt,
         ) -> Result<Option<Vec<usize>>, String> {
             let mut pos = vec![];
             let mut cur = i;
@@ -332,7 +417,7 @@ mod tw {
             rules: &[CtxRule],
             buf: &mut Vec<Glyph>,
             i: usize,
-            flag: u16,
+            flag: Flt,
             depth: u32,
         ) -> Result<Option<usize>, String> {
             'rules: for r in rules {
@@ -486,7 +571,7 @@ mod tw {
         /// One application of GSUB lookup `li` at `i`: first subtable that matches.
         fn gsub_at(&self, li: u16, buf: &mut Vec<Glyph>, i: usize, depth: u32) -> Result<Option<usize>, String> {
             let lookup = self.font.gsub().map_err(e)?.lookup_list().map_err(e)?.lookups().get(li as usize).map_err(e)?;
-            let flag = lookup.lookup_flag().to_bits();
+            let flag = Flt { flag: lookup.lookup_flag().to_bits(), set: lookup.mark_filtering_set() };
             let g = buf[i].gid;
             match lookup.subtables().map_err(e)? {
                 SubstitutionSubtables::Single(sts) => {
@@ -566,7 +651,7 @@ mod tw {
 
         fn gpos_at(&self, li: u16, buf: &mut [Glyph], i: usize) -> Result<Option<usize>, String> {
             let lookup = self.font.gpos().map_err(e)?.lookup_list().map_err(e)?.lookups().get(li as usize).map_err(e)?;
-            let flag = lookup.lookup_flag().to_bits();
+            let flag = Flt { flag: lookup.lookup_flag().to_bits(), set: lookup.mark_filtering_set() };
             let g = buf[i].gid;
             match lookup.subtables().map_err(e)? {
                 PositionSubtables::Single(sts) => {
@@ -661,9 +746,29 @@ impl Form {
 #[derive(Clone, Debug)]
 struct LSpec {
     rules: Vec<Rule>,
-    flag: u16,
+    flag: LFlag,
     form: Form,
 }
+
+fn lf(bits: u16) -> LFlag {
+    LFlag::bits(bits)
+}
+fn umfs(c: Gs) -> LFlag {
+    LFlag { bits: 0, mark_attach: None, mark_filter: Some(c) }
+}
+fn mat(c: Gs) -> LFlag {
+    LFlag { bits: 0, mark_attach: Some(c), mark_filter: None }
+}
+fn flag_stmt(f: &LFlag) -> Stmt {
+    if f.is_plain() { Stmt::LookupFlag(f.bits) } else { Stmt::LookupFlagEx(f.clone()) }
+}
+/// `IgnoreMarks`, `UseMarkFilteringSet [acutecomb]`, ... (`0` for no flag)
+fn flag_text(f: &LFlag) -> String {
+    f.to_fea().trim_start_matches("lookupflag ").trim_end_matches(';').to_string()
+}
+
+/// Named mark classes the flag alphabet may refer to.
+const MARK_CLASSES: [(&str, &[Gid]); 2] = [("M1", &[G_GRAVE]), ("M2", &[G_GRAVE, G_DOTBELOW])];
 
 impl LSpec {
     fn kind(&self) -> Kind {
@@ -840,11 +945,18 @@ fn build_a(specs: &[LSpec]) -> Program {
                     || by.as_ref().map(named).unwrap_or(false)
             }
             Rule::Ignore { back, input, ahead } => back.iter().chain(input).chain(ahead).any(named),
+            Rule::ChainMultiple { back, ahead, .. } => back.iter().chain(ahead).any(named),
             Rule::Multiple { .. } => false,
         })
     });
     if uses_c0 {
         items.push(Top::ClassDef { name: "C0".into(), glyphs: vec![G_A, G_B] });
+    }
+    for (name, glyphs) in MARK_CLASSES {
+        let used = |c: &Option<Gs>| matches!(c, Some(Gs::Named(n)) if n == name);
+        if specs.iter().any(|s| used(&s.flag.mark_attach) || used(&s.flag.mark_filter)) {
+            items.push(Top::ClassDef { name: name.into(), glyphs: glyphs.to_vec() });
+        }
     }
     items.push(Top::Gdef);
     let names: Vec<String> = (0..specs.len()).map(|i| format!("L{i}")).collect();
@@ -868,30 +980,30 @@ fn build_a(specs: &[LSpec]) -> Program {
     let block_body = |i: usize, need_flag: bool| {
         let mut body = vec![];
         if need_flag {
-            body.push(Stmt::LookupFlag(specs[i].flag));
+            body.push(flag_stmt(&specs[i].flag));
         }
         body.extend(bound[i].iter().cloned().map(Stmt::Rule));
         body
     };
     for (i, s) in specs.iter().enumerate() {
         if matches!(s.form, Form::BlockOutRef | Form::BlockOutOnly) {
-            items.push(Top::Lookup { name: names[i].clone(), body: block_body(i, s.flag != 0) });
+            items.push(Top::Lookup { name: names[i].clone(), body: block_body(i, !s.flag.is_zero()) });
         }
     }
     let mut body = vec![];
     // the feature-level flag as far as every reading agrees on it
-    let mut cur: Option<u16> = Some(0);
+    let mut cur: Option<LFlag> = Some(lf(0));
     for (i, s) in specs.iter().enumerate() {
         match s.form {
             Form::Anon => {
-                if cur != Some(s.flag) {
-                    body.push(Stmt::LookupFlag(s.flag));
-                    cur = Some(s.flag);
+                if cur.as_ref() != Some(&s.flag) {
+                    body.push(flag_stmt(&s.flag));
+                    cur = Some(s.flag.clone());
                 }
                 body.extend(bound[i].iter().cloned().map(Stmt::Rule));
             }
             Form::BlockIn => {
-                let need = s.flag != 0 || cur != Some(0);
+                let need = !s.flag.is_zero() || cur != Some(lf(0));
                 body.push(Stmt::Lookup { name: names[i].clone(), body: block_body(i, need) });
                 if need {
                     cur = None;
@@ -899,7 +1011,7 @@ fn build_a(specs: &[LSpec]) -> Program {
             }
             Form::BlockOutRef => {
                 body.push(Stmt::LookupRef(names[i].clone()));
-                if cur != Some(s.flag) {
+                if cur.as_ref() != Some(&s.flag) {
                     cur = None;
                 }
             }
@@ -1001,6 +1113,267 @@ fn item_seqs(alpha: &[Item], max: usize) -> Vec<Vec<Item>> {
     out
 }
 
+
+// ---------------------------------------------------------------- family I
+
+/// Family I: contextual rules with in-line replacements, several per lookup. The marked
+/// element is a glyph or a class; classes of different rules are equal (also in another
+/// order), overlapping or disjoint, and the replacements differ.
+#[derive(Clone)]
+enum Ctx {
+    None,
+    Back(Gid),
+    Ahead(Gid),
+}
+
+fn with_ctx(c: &Ctx) -> (Vec<Gs>, Vec<Gs>) {
+    match c {
+        Ctx::None => (vec![], vec![]),
+        Ctx::Back(x) => (vec![g(*x)], vec![]),
+        Ctx::Ahead(x) => (vec![], vec![g(*x)]),
+    }
+}
+
+/// (in-line single, in-line ligature, in-line multiple) rule alphabets; `small` = the reduced
+/// alphabets used for three-rule lookups.
+fn inline_alphabet(small: bool) -> Vec<Rule> {
+    let mut out = vec![];
+    // single: sub [ctx] M' [ctx] by R;
+    let (ctxs, marked, bys): (Vec<Ctx>, Vec<Gs>, Vec<Gs>) = if small {
+        (
+            vec![Ctx::Back(G_D), Ctx::None],
+            vec![lit(&[G_A, G_B]), lit(&[G_C, G_B]), lit(&[G_B, G_A])],
+            vec![g(G_D), g(G_FF), lit(&[G_C, G_D])],
+        )
+    } else {
+        (
+            vec![Ctx::Back(G_D), Ctx::Back(G_FF), Ctx::Ahead(G_D), Ctx::None],
+            vec![g(G_A), lit(&[G_A, G_B]), lit(&[G_C, G_B]), lit(&[G_B, G_A]), Gs::Range(G_A, G_C)],
+            vec![g(G_D), g(G_FF), lit(&[G_C, G_D]), lit(&[G_D, G_A])],
+        )
+    };
+    for c in &ctxs {
+        for m in &marked {
+            for by in &bys {
+                let (back, ahead) = with_ctx(c);
+                out.push(Rule::Chain { back, input: vec![(m.clone(), vec![])], ahead, by: Some(by.clone()) });
+            }
+        }
+    }
+    // ligature: sub [ctx] M1' M2' [ctx] by G;
+    let (ctxs, m1s, m2s): (Vec<Ctx>, Vec<Gs>, Vec<Gs>) = if small {
+        (vec![Ctx::Ahead(G_D), Ctx::None], vec![g(G_A), lit(&[G_A, G_C])], vec![g(G_B)])
+    } else {
+        (
+            vec![Ctx::Back(G_D), Ctx::Ahead(G_D), Ctx::Ahead(G_FF), Ctx::None],
+            vec![g(G_A), lit(&[G_A, G_C])],
+            vec![g(G_B), lit(&[G_B, G_A])],
+        )
+    };
+    for c in &ctxs {
+        for m1 in &m1s {
+            for m2 in &m2s {
+                for by in [G_FF, G_D] {
+                    let (back, ahead) = with_ctx(c);
+                    out.push(Rule::Chain {
+                        back,
+                        input: vec![(m1.clone(), vec![]), (m2.clone(), vec![])],
+                        ahead,
+                        by: Some(g(by)),
+                    });
+                }
+            }
+        }
+    }
+    // multiple: sub [ctx] G' [ctx] by X Y ..;
+    let (ctxs, tos): (Vec<Ctx>, Vec<Vec<Gid>>) = if small {
+        (vec![Ctx::Ahead(G_D)], vec![vec![G_C, G_D]])
+    } else {
+        (
+            vec![Ctx::Back(G_D), Ctx::Ahead(G_D), Ctx::Ahead(G_FF), Ctx::None],
+            vec![vec![G_C, G_D], vec![G_B, G_A, G_ACUTE]],
+        )
+    };
+    for c in &ctxs {
+        for input in [G_A, G_B] {
+            for to in &tos {
+                let (back, ahead) = with_ctx(c);
+                out.push(Rule::ChainMultiple { back, input, ahead, to: to.clone() });
+            }
+        }
+    }
+    out.into_iter().filter(|r| lookup_ok(std::slice::from_ref(r))).collect()
+}
+
+fn inline_kind(r: &Rule) -> &'static str {
+    match r {
+        Rule::ChainMultiple { .. } => "inline-multiple",
+        Rule::Chain { input, by: Some(_), .. } if input.len() > 1 => "inline-ligature",
+        Rule::Chain { input, by: Some(_), .. } if !matches!(input[0].0, Gs::G(_)) => "inline-class",
+        Rule::Chain { by: Some(_), .. } => "inline-single",
+        _ => "other",
+    }
+}
+
+/// Two in-line single rules whose marked classes share a glyph and whose replacements differ.
+fn overlapping_inline(a: &Rule, b: &Rule) -> bool {
+    let set = |x: &Gs| -> Vec<Gid> {
+        match x {
+            Gs::G(x) => vec![*x],
+            Gs::Lit(v) => v.clone(),
+            Gs::Range(a, b) => (*a..=*b).collect(),
+            Gs::Named(_) => vec![],
+        }
+    };
+    match (a, b) {
+        (
+            Rule::Chain { input: ia, by: Some(ba), .. },
+            Rule::Chain { input: ib, by: Some(bb), .. },
+        ) if ia.len() == 1 && ib.len() == 1 => {
+            let (sa, sb) = (set(&ia[0].0), set(&ib[0].0));
+            sa.len() > 1 && sb.len() > 1 && sa.iter().any(|x| sb.contains(x)) && ba != bb
+        }
+        _ => false,
+    }
+}
+
+// ---------------------------------------------------------------- family F
+
+/// The lookup-flag alphabet of family F. `M1`, `M2` are named classes (see `MARK_CLASSES`).
+fn flag_alphabet(full: bool) -> Vec<LFlag> {
+    let mut v = vec![
+        lf(0),
+        lf(FLAG_IGNORE_MARKS),
+        lf(FLAG_IGNORE_LIGATURES),
+        umfs(lit(&[G_ACUTE])),
+        umfs(Gs::Named("M1".into())),
+        umfs(lit(&[G_ACUTE, G_DOTBELOW])),
+        mat(lit(&[G_ACUTE])),
+        mat(Gs::Named("M2".into())),
+    ];
+    if full {
+        v.push(lf(FLAG_IGNORE_BASE_GLYPHS));
+        v.push(LFlag { bits: FLAG_IGNORE_LIGATURES, mark_attach: None, mark_filter: Some(lit(&[G_GRAVE])) });
+        v.push(LFlag { bits: FLAG_RIGHT_TO_LEFT, mark_attach: Some(lit(&[G_ACUTE])), mark_filter: None });
+    }
+    v
+}
+
+/// Rules whose outcome depends on which glyphs the lookup sees.
+fn flag_rules() -> Vec<Rule> {
+    let inp = |x: Gs| (x, Vec::<String>::new());
+    let pair = |f: Gid, s: Gid, v: i32| Rule::PairPos { first: g(f), second: g(s), value: Value::Adv(v), enumerate: false };
+    vec![
+        Rule::Ligature { comps: vec![g(G_A), g(G_B)], to: G_C },
+        Rule::Ligature { comps: vec![g(G_A), g(G_ACUTE)], to: G_D },
+        Rule::Ligature { comps: vec![g(G_A), g(G_GRAVE), g(G_B)], to: G_D },
+        pair(G_A, G_B, 10),
+        pair(G_A, G_ACUTE, 15),
+        pair(G_FF, G_B, 20),
+        Rule::Chain { back: vec![], input: vec![inp(g(G_A))], ahead: vec![g(G_B)], by: Some(g(G_C)) },
+        Rule::Chain { back: vec![g(G_A)], input: vec![inp(g(G_B))], ahead: vec![], by: Some(g(G_D)) },
+        Rule::Chain { back: vec![], input: vec![inp(g(G_A))], ahead: vec![g(G_GRAVE)], by: Some(g(G_C)) },
+        Rule::Chain { back: vec![], input: vec![inp(g(G_A)), inp(g(G_B))], ahead: vec![], by: Some(g(G_FF)) },
+        Rule::Single { from: g(G_A), to: g(G_B) },
+        Rule::Single { from: g(G_ACUTE), to: g(G_GRAVE) },
+        Rule::SinglePos { target: lit(&[G_ACUTE, G_DOTBELOW]), value: Value::Rec([5, 6, 0, 0]) },
+        Rule::Multiple { from: G_B, to: vec![G_A, G_ACUTE] },
+    ]
+}
+
+// ---------------------------------------------------------------- family G
+
+/// Family G: one contextual lookup whose rules are a prefix of the grid of all class
+/// tuples over a two-class pool, `nb` backtrack + `ni` input + `nl` lookahead positions.
+/// Large prefixes share classes between many rules, so that each of the three subtable
+/// formats of GSUB 5/6 is the smallest encoding for some member of the family.
+#[derive(Clone, Copy, Debug, PartialEq, Eq)]
+enum GAction {
+    /// `by <glyph>`: in-line single (one input position) or ligature (two)
+    Inline,
+    /// `lookup NA` / `lookup NB` at the first input position
+    Nested,
+}
+
+#[derive(Clone, Copy, Debug)]
+struct GSpec {
+    pool: usize,
+    nb: usize,
+    ni: usize,
+    nl: usize,
+    /// number of rules (prefix of the tuple list)
+    m: usize,
+    /// tuple list in descending order
+    rev: bool,
+    action: GAction,
+}
+
+const G_POOLS: [&str; 4] = ["glyphs", "classes", "overlapping-classes", "class+glyph"];
+
+fn g_pool(i: usize) -> [Gs; 2] {
+    match i {
+        0 => [g(G_A), g(G_B)],
+        1 => [lit(&[G_A, G_B]), lit(&[G_C, G_D])],
+        2 => [lit(&[G_A, G_B]), lit(&[G_B, G_C])],
+        _ => [lit(&[G_A, G_B]), g(G_C)],
+    }
+}
+
+fn build_g(sp: &GSpec) -> Program {
+    let mut items = vec![Top::Gdef];
+    if sp.action == GAction::Nested {
+        items.push(Top::Lookup {
+            name: "NA".into(),
+            body: vec![Stmt::Rule(Rule::Single { from: Gs::Range(G_A, G_D), to: lit(&[G_B, G_C, G_D, G_A]) })],
+        });
+        items.push(Top::Lookup {
+            name: "NB".into(),
+            body: vec![Stmt::Rule(Rule::Single { from: Gs::Range(G_A, G_D), to: g(G_FF) })],
+        });
+    }
+    let pool = g_pool(sp.pool);
+    let n = sp.nb + sp.ni + sp.nl;
+    let total = 1usize << n;
+    let repl = [G_FF, G_D, G_C, G_B, G_A];
+    let mut body = vec![];
+    for j in 0..sp.m.min(total) {
+        // k = index of the tuple in ascending order: the identity of the rule
+        let k = if sp.rev { total - 1 - j } else { j };
+        let at = |pos: usize| pool[(k >> (n - 1 - pos)) & 1].clone();
+        let back: Vec<Gs> = (0..sp.nb).map(at).collect();
+        let ahead: Vec<Gs> = (sp.nb + sp.ni..n).map(at).collect();
+        let mut input: Vec<(Gs, Vec<String>)> = (sp.nb..sp.nb + sp.ni).map(|p| (at(p), vec![])).collect();
+        let by = match sp.action {
+            GAction::Inline => Some(g(repl[k % repl.len()])),
+            GAction::Nested => {
+                input[0].1.push(if k.count_ones() % 2 == 0 { "NA".into() } else { "NB".into() });
+                None
+            }
+        };
+        body.push(Stmt::Rule(Rule::Chain { back, input, ahead, by }));
+    }
+    items.push(Top::Feature { tag: "test".into(), body });
+    Program { items }
+}
+
+fn all_strings_over(alpha: &[Gid], max_len: usize) -> Vec<Vec<Gid>> {
+    let mut out: Vec<Vec<Gid>> = vec![vec![]];
+    let mut level: Vec<Vec<Gid>> = vec![vec![]];
+    for _ in 0..max_len {
+        let mut next = vec![];
+        for s in &level {
+            for gl in alpha {
+                let mut t = s.clone();
+                t.push(*gl);
+                next.push(t);
+            }
+        }
+        out.extend(next.iter().cloned());
+        level = next;
+    }
+    out
+}
+
 // =============================================================== evaluation
 
 fn compile(fea: &str, gm: &GlyphMap) -> Result<Vec<u8>, String> {
@@ -1082,6 +1455,11 @@ struct Stats {
     ignore_pairs: u64,
     nested_pairs: u64,
     skip_pairs: u64,
+    mark_class_skip_pairs: u64,
+    /// "<family>/GSUB<type>.format<n>" -> compiled contextual lookups
+    ctx_formats: BTreeMap<String, u64>,
+    /// per family: programs compiled, evaluations, programs with a mismatch-free nontrivial run
+    by_family: BTreeMap<String, [u64; 3]>,
     liga_longest_pairs: u64,
     positioned_pairs: u64,
     programs_nontrivial: u64,
@@ -1118,6 +1496,16 @@ impl Stats {
         self.ignore_pairs += o.ignore_pairs;
         self.nested_pairs += o.nested_pairs;
         self.skip_pairs += o.skip_pairs;
+        self.mark_class_skip_pairs += o.mark_class_skip_pairs;
+        for (k, v) in o.ctx_formats {
+            *self.ctx_formats.entry(k).or_default() += v;
+        }
+        for (k, v) in o.by_family {
+            let e = self.by_family.entry(k).or_default();
+            for i in 0..3 {
+                e[i] += v[i];
+            }
+        }
         self.liga_longest_pairs += o.liga_longest_pairs;
         self.positioned_pairs += o.positioned_pairs;
         self.programs_nontrivial += o.programs_nontrivial;
@@ -1158,6 +1546,7 @@ struct Case<'a> {
 #[derive(Clone, Debug)]
 enum Desc {
     A(&'static str, Vec<LSpec>),
+    G(GSpec),
     B { ls: usize, pre: Vec<Item>, latn: Option<Vec<Item>>, trk: Option<(bool, Vec<Item>)>, trailer: usize },
 }
 
@@ -1165,12 +1554,38 @@ impl Desc {
     fn family(&self) -> &'static str {
         match self {
             Desc::A(f, _) => f,
+            Desc::G(_) => "G",
             Desc::B { .. } => "B",
         }
     }
     fn build(&self) -> Case<'static> {
         match self {
+            Desc::A(f, specs) if f.starts_with('I') => {
+                let mut kinds: Vec<&str> = specs.iter().flat_map(|s| s.rules.iter().map(inline_kind)).collect();
+                kinds.sort();
+                kinds.dedup();
+                Case {
+                    family: f,
+                    shape: format!("{}:{}", kinds.join("+"), if specs.len() == 1 { "one-lookup" } else { "two-lookups" }),
+                    detail: detail_of(specs),
+                    program: build_a(specs),
+                }
+            }
             Desc::A(f, specs) => Case { family: f, shape: shape_of(specs), detail: detail_of(specs), program: build_a(specs) },
+            Desc::G(sp) => Case {
+                family: "G",
+                shape: format!(
+                    "{}:{}",
+                    G_POOLS[sp.pool],
+                    match (sp.action, sp.ni) {
+                        (GAction::Inline, 1) => "inline-single",
+                        (GAction::Inline, _) => "inline-ligature",
+                        (GAction::Nested, _) => "named-lookup",
+                    }
+                ),
+                detail: format!("{sp:?}"),
+                program: build_g(sp),
+            },
             Desc::B { ls, pre, latn, trk, trailer } => {
                 let n = |v: &Vec<Item>| if v.is_empty() { "0" } else { "+" };
                 let shape = format!(
@@ -1280,6 +1695,21 @@ fn evaluate(case: &Case, strings: &[Vec<Gid>], gm: &GlyphMap, st: &mut Stats, ve
         }
     };
     let walker = tw::Walker::new(&bytes);
+    st.by_family.entry(case.family.to_string()).or_default()[0] += 1;
+    let mut formats_here: Vec<String> = vec![];
+    if let Ok(w) = &walker {
+        match w.context_formats() {
+            Ok(v) => {
+                for (ty, f, _n) in v {
+                    let name = format!("GSUB{ty}.format{f}");
+                    *st.ctx_formats.entry(format!("{}/{name}", case.family)).or_default() += 1;
+                    formats_here.push(name);
+                }
+            }
+            Err(e) => *st.second_reader_errors.entry(e).or_default() += 1,
+        }
+    }
+    let evals_before = st.evaluations;
     let (kg, kp) = resolved.keys();
     let mut failed = false;
     let mut nontrivial = false;
@@ -1348,6 +1778,9 @@ fn evaluate(case: &Case, strings: &[Vec<Gid>], gm: &GlyphMap, st: &mut Stats, ve
             }
             if trace.skip_mattered > 0 {
                 st.skip_pairs += 1;
+            }
+            if trace.mark_class_skip_mattered > 0 {
+                st.mark_class_skip_pairs += 1;
             }
             if trace.ligature_longest_won > 0 {
                 st.liga_longest_pairs += 1;
@@ -1419,14 +1852,22 @@ fn evaluate(case: &Case, strings: &[Vec<Gid>], gm: &GlyphMap, st: &mut Stats, ve
                     st.violations.push((
                         key,
                         format!(
-                            "{script}/{lang} input '{}': the source rules give '{}', the compiled tables give '{}' (otlayout and the second table reader agree)",
-                            show(s), show_shaped(&want), show_shaped(&got)
+                            "{script}/{lang} input '{}': the source rules give '{}', the compiled tables give '{}' (otlayout and the second table reader agree){}",
+                            show(s), show_shaped(&want), show_shaped(&got),
+                            if formats_here.is_empty() { String::new() } else { format!("; contextual lookups compiled as {}", formats_here.join(", ")) }
                         ),
                         json!({"fea": fea, "program": case.program, "family": case.family, "shape": case.shape, "detail": case.detail,
                                "script": script, "lang": lang, "input": s}),
                     ));
                 }
             }
+        }
+    }
+    {
+        let e = st.by_family.entry(case.family.to_string()).or_default();
+        e[1] += st.evaluations - evals_before;
+        if nontrivial {
+            e[2] += 1;
         }
     }
     if nontrivial {
@@ -1463,14 +1904,56 @@ struct Plan {
     /// glyph strings: every string up to this length, for families A and B
     max_len_a: usize,
     max_len_b: usize,
+    /// family I: lookups of three in-line rules over the reduced alphabets
+    i_triples: bool,
+    /// family I strings: over {a b c d f_f}
+    max_len_i: usize,
+    /// family F: the full flag alphabet; three runs over the reduced alphabets
+    f_full: bool,
+    /// family F strings: over {a b f_f acutecomb gravecomb dotbelowcomb}
+    max_len_f: usize,
+    /// family G: bounds on backtrack / lookahead positions and on all positions together;
+    /// strings over {a b c d} up to (positions + 1) glyphs, at most `g_max_len`
+    g_max_back: usize,
+    g_max_ahead: usize,
+    g_max_positions: usize,
+    g_max_len: usize,
+}
+
+const ALPHA_I: [Gid; 5] = [G_A, G_B, G_C, G_D, G_FF];
+const ALPHA_F: [Gid; 6] = [G_A, G_B, G_FF, G_ACUTE, G_GRAVE, G_DOTBELOW];
+const ALPHA_G: [Gid; 4] = [G_A, G_B, G_C, G_D];
+
+/// Which string set a case is evaluated on: 0 family A, 1 family B, 2 family I, 3 family F,
+/// 4 + n family G with strings up to n glyphs.
+fn string_set_of(d: &Desc, plan: &Plan) -> usize {
+    match d {
+        Desc::B { .. } => 1,
+        Desc::A(f, _) if f.starts_with('I') => 2,
+        Desc::A(f, _) if f.starts_with('F') => 3,
+        Desc::A(..) => 0,
+        Desc::G(sp) => 4 + (sp.nb + sp.ni + sp.nl + 1).min(plan.g_max_len),
+    }
 }
 
 /// Coarse identity of a family-A program for violation keys: the lookup types in order,
 /// and whether any lookup ignores marks. Flags per lookup and forms are in `detail_of`.
 fn shape_of(specs: &[LSpec]) -> String {
     let kinds: Vec<&str> = specs.iter().map(|s| s.kind().name()).collect();
-    let im = specs.iter().any(|s| s.flag & FLAG_IGNORE_MARKS != 0);
-    format!("{}{}", kinds.join("+"), if im { ":ignoremarks" } else { "" })
+    let mut out = kinds.join("+");
+    let any = |f: &dyn Fn(&LFlag) -> bool| specs.iter().any(|s| f(&s.flag));
+    for (tag, on) in [
+        (":ignoremarks", any(&|f| f.bits & FLAG_IGNORE_MARKS != 0)),
+        (":ignoreligatures", any(&|f| f.bits & FLAG_IGNORE_LIGATURES != 0)),
+        (":ignorebaseglyphs", any(&|f| f.bits & FLAG_IGNORE_BASE_GLYPHS != 0)),
+        (":markfilteringset", any(&|f| f.mark_filter.is_some())),
+        (":markattachmenttype", any(&|f| f.mark_attach.is_some())),
+    ] {
+        if on {
+            out.push_str(tag);
+        }
+    }
+    out
 }
 
 fn detail_of(specs: &[LSpec]) -> String {
@@ -1480,12 +1963,7 @@ fn detail_of(specs: &[LSpec]) -> String {
             format!(
                 "{}{}{}",
                 s.kind().name(),
-                match s.flag {
-                    0 => "",
-                    FLAG_IGNORE_MARKS => "/IgnoreMarks",
-                    FLAG_RIGHT_TO_LEFT => "/RightToLeft",
-                    _ => "/flags",
-                },
+                if s.flag.is_zero() { String::new() } else { format!("/{}", flag_text(&s.flag)) },
                 match s.form {
                     Form::Anon => "",
                     Form::BlockIn => "@in",
@@ -1503,12 +1981,12 @@ fn lookup_ok(rules: &[Rule]) -> bool {
     if rules.iter().any(rule_uses_nest) {
         // checked with a dummy nested lookup
         let specs = vec![
-            LSpec { rules: vec![Rule::Single { from: g(G_A), to: g(G_D) }], flag: 0, form: Form::BlockOutOnly },
-            LSpec { rules: rules.to_vec(), flag: 0, form: Form::BlockIn },
+            LSpec { rules: vec![Rule::Single { from: g(G_A), to: g(G_D) }], flag: lf(0), form: Form::BlockOutOnly },
+            LSpec { rules: rules.to_vec(), flag: lf(0), form: Form::BlockIn },
         ];
         return interp::resolve(&build_a(&specs)).is_ok();
     }
-    let specs = vec![LSpec { rules: rules.to_vec(), flag: 0, form: Form::BlockIn }];
+    let specs = vec![LSpec { rules: rules.to_vec(), flag: lf(0), form: Form::BlockIn }];
     interp::resolve(&build_a(&specs)).is_ok()
 }
 
@@ -1539,7 +2017,7 @@ fn enumerate(plan: &Plan) -> (Vec<Desc>, BTreeMap<String, u64>) {
     for rules in &a1 {
         for flag in [0, FLAG_IGNORE_MARKS, FLAG_RIGHT_TO_LEFT] {
             for form in [Form::Anon, Form::BlockIn, Form::BlockOutRef] {
-                let specs = vec![LSpec { rules: rules.clone(), flag, form }];
+                let specs = vec![LSpec { rules: rules.clone(), flag: lf(flag), form }];
                 cases.push(Desc::A("A1", specs));
             }
         }
@@ -1594,8 +2072,8 @@ fn enumerate(plan: &Plan) -> (Vec<Desc>, BTreeMap<String, u64>) {
                             continue;
                         }
                         let specs = vec![
-                            LSpec { rules: r1.clone(), flag: f1, form: fo1 },
-                            LSpec { rules: r2.clone(), flag: f2, form: fo2 },
+                            LSpec { rules: r1.clone(), flag: lf(f1), form: fo1 },
+                            LSpec { rules: r2.clone(), flag: lf(f2), form: fo2 },
                         ];
                         cases.push(Desc::A("A2", specs));
                     }
@@ -1614,13 +2092,149 @@ fn enumerate(plan: &Plan) -> (Vec<Desc>, BTreeMap<String, u64>) {
                 for r3 in &one {
                     let specs: Vec<LSpec> = [r1, r2, r3]
                         .iter()
-                        .map(|r| LSpec { rules: (*r).clone(), flag: 0, form: Form::BlockIn })
+                        .map(|r| LSpec { rules: (*r).clone(), flag: lf(0), form: Form::BlockIn })
                         .collect();
                     cases.push(Desc::A("A3", specs));
                 }
             }
         }
         counts.insert("A3_programs".into(), (cases.len() - n0) as u64);
+    }
+
+    // ---- I: contextual rules with in-line replacements
+    {
+        let n0 = cases.len();
+        let alpha_i = inline_alphabet(false);
+        counts.insert("I_rule_alphabet".into(), alpha_i.len() as u64);
+        let mut overlapping = 0u64;
+        for (i, r1) in alpha_i.iter().enumerate() {
+            for (j, r2) in alpha_i.iter().enumerate() {
+                if i == j {
+                    continue;
+                }
+                if overlapping_inline(r1, r2) {
+                    overlapping += 1;
+                }
+                let one = |form| vec![LSpec { rules: vec![r1.clone(), r2.clone()], flag: lf(0), form }];
+                cases.push(Desc::A("I2", one(Form::Anon)));
+                cases.push(Desc::A(
+                    "I2",
+                    vec![
+                        LSpec { rules: vec![r1.clone()], flag: lf(0), form: Form::BlockIn },
+                        LSpec { rules: vec![r2.clone()], flag: lf(0), form: Form::BlockIn },
+                    ],
+                ));
+            }
+        }
+        counts.insert("I2_programs".into(), (cases.len() - n0) as u64);
+        counts.insert("I2_rule_pairs_with_overlapping_marked_classes_and_different_replacements".into(), overlapping);
+        if plan.i_triples {
+            let n0 = cases.len();
+            let small = inline_alphabet(true);
+            counts.insert("I3_rule_alphabet".into(), small.len() as u64);
+            for rules in sequences(&small, 3).into_iter().filter(|s| s.len() == 3) {
+                cases.push(Desc::A("I3", vec![LSpec { rules, flag: lf(0), form: Form::Anon }]));
+            }
+            counts.insert("I3_programs".into(), (cases.len() - n0) as u64);
+        }
+    }
+
+    // ---- F: lookup flags with mark classes; the flag changes between runs of rules
+    {
+        let n0 = cases.len();
+        let flags = flag_alphabet(plan.f_full);
+        let rules = flag_rules();
+        counts.insert("F_flag_alphabet".into(), flags.len() as u64);
+        counts.insert("F_rule_alphabet".into(), rules.len() as u64);
+        let mut only_mark_class = 0u64;
+        for f1 in &flags {
+            for r1 in &rules {
+                for f2 in &flags {
+                    for r2 in &rules {
+                        let k1 = rule_kind(r1);
+                        let k2 = rule_kind(r2);
+                        for (fo1, fo2) in [(Form::Anon, Form::Anon), (Form::BlockIn, Form::BlockIn)] {
+                            if fo1 == Form::Anon && fo2 == Form::Anon && k1 == k2 && f1 == f2 {
+                                continue; // one lookup: covered by the first run alone
+                            }
+                            if fo1 == Form::Anon
+                                && fo2 == Form::Anon
+                                && k1 == k2
+                                && f1.bits == f2.bits
+                                && f1.mark_attach == f2.mark_attach
+                                && f1.mark_filter.is_some()
+                                && f2.mark_filter.is_some()
+                            {
+                                only_mark_class += 1;
+                            }
+                            cases.push(Desc::A(
+                                "F2",
+                                vec![
+                                    LSpec { rules: vec![r1.clone()], flag: f1.clone(), form: fo1 },
+                                    LSpec { rules: vec![r2.clone()], flag: f2.clone(), form: fo2 },
+                                ],
+                            ));
+                        }
+                    }
+                }
+            }
+        }
+        counts.insert("F2_programs".into(), (cases.len() - n0) as u64);
+        counts.insert("F2_programs_two_same_type_runs_differing_only_in_mark_filtering_set".into(), only_mark_class);
+        if plan.f_full {
+            // three runs of rules written directly in the feature, reduced alphabets
+            let n0 = cases.len();
+            let fl = [lf(0), umfs(lit(&[G_ACUTE])), umfs(Gs::Named("M1".into())), mat(lit(&[G_ACUTE])), mat(Gs::Named("M2".into()))];
+            let rl: Vec<Rule> = [0usize, 1, 3, 6, 8].iter().map(|i| rules[*i].clone()).collect();
+            for f1 in &fl {
+                for r1 in &rl {
+                    for f2 in &fl {
+                        for r2 in &rl {
+                            for f3 in &fl {
+                                for r3 in &rl {
+                                    if f1 == f2 || f2 == f3 {
+                                        continue;
+                                    }
+                                    cases.push(Desc::A(
+                                        "F3",
+                                        [(f1, r1), (f2, r2), (f3, r3)]
+                                            .iter()
+                                            .map(|(f, r)| LSpec { rules: vec![(*r).clone()], flag: (*f).clone(), form: Form::Anon })
+                                            .collect(),
+                                    ));
+                                }
+                            }
+                        }
+                    }
+                }
+            }
+            counts.insert("F3_programs".into(), (cases.len() - n0) as u64);
+        }
+    }
+
+    // ---- G: grids of class tuples in one contextual lookup
+    {
+        let n0 = cases.len();
+        for pool in 0..G_POOLS.len() {
+            for nb in 0..=plan.g_max_back {
+                for nl in 0..=plan.g_max_ahead {
+                    for ni in 1..=2usize {
+                        let n = nb + ni + nl;
+                        if n < 2 || n > plan.g_max_positions {
+                            continue;
+                        }
+                        for action in [GAction::Inline, GAction::Nested] {
+                            for rev in [false, true] {
+                                for m in 1..=(1usize << n) {
+                                    cases.push(Desc::G(GSpec { pool, nb, ni, nl, m, rev, action }));
+                                }
+                            }
+                        }
+                    }
+                }
+            }
+        }
+        counts.insert("G_programs".into(), (cases.len() - n0) as u64);
     }
 
     // ---- B: registration under language systems
@@ -1664,14 +2278,20 @@ fn replay(path: &Path, rep_id: &str) -> ! {
     let program: Program = serde_json::from_value(r["program"].clone())
         .unwrap_or_else(|e| vcore::machinery_error(&format!("replay file has no program: {e}")));
     println!("[{rep_id}] replaying {}\n--- feature file ---\n{}--------------------", v["key"], program.to_fea());
+    let quick_space = match r["family"].as_str().unwrap_or("") {
+        f if f.starts_with('I') => all_strings_over(&ALPHA_I, 3),
+        f if f.starts_with('F') => all_strings_over(&ALPHA_F, 3),
+        "G" => all_strings_over(&ALPHA_G, 5),
+        _ => all_strings(3),
+    };
     let strings: Vec<Vec<Gid>> = match r.get("input").and_then(|i| serde_json::from_value::<Vec<Gid>>(i.clone()).ok()) {
         Some(s) => {
             // the recorded string first, then the rest of the quick space
             let mut all = vec![s];
-            all.extend(all_strings(3));
+            all.extend(quick_space);
             all
         }
-        None => all_strings(3),
+        None => quick_space,
     };
     let case = Case {
         family: "replay",
@@ -1710,6 +2330,14 @@ fn main() {
             b_items: vec![Item::AnonAB, Item::RefN0, Item::BlockN1],
             max_len_a: 3,
             max_len_b: 2,
+            i_triples: false,
+            max_len_i: 3,
+            f_full: false,
+            max_len_f: 3,
+            g_max_back: 2,
+            g_max_ahead: 1,
+            g_max_positions: 4,
+            g_max_len: 5,
         },
         Tier::Thorough => Plan {
             a1_rules: 3,
@@ -1720,23 +2348,50 @@ fn main() {
             b_items: vec![Item::AnonAB, Item::RefN0, Item::BlockN1, Item::AnonPosA, Item::AnonDA],
             max_len_a: 4,
             max_len_b: 3,
+            i_triples: true,
+            max_len_i: 4,
+            f_full: true,
+            max_len_f: 4,
+            g_max_back: 3,
+            g_max_ahead: 2,
+            g_max_positions: 5,
+            g_max_len: 6,
         },
     };
     let strings = all_strings(plan.max_len_a);
     let strings_b = all_strings(plan.max_len_b);
+    let mut string_sets: Vec<Vec<Vec<Gid>>> = vec![
+        strings.clone(),
+        strings_b.clone(),
+        all_strings_over(&ALPHA_I, plan.max_len_i),
+        all_strings_over(&ALPHA_F, plan.max_len_f),
+    ];
+    for n in 0..=plan.g_max_len {
+        string_sets.push(all_strings_over(&ALPHA_G, n));
+    }
     let (mut cases, counts) = enumerate(&plan);
+    if args.rest.iter().any(|a| a == "--count") {
+        // the size of the space, without running it
+        let mut evals: BTreeMap<&str, u64> = BTreeMap::new();
+        for c in &cases {
+            *evals.entry(c.family()).or_default() += string_sets[string_set_of(c, &plan)].len() as u64;
+        }
+        println!("{}", serde_json::to_string_pretty(&json!({"programs": counts, "program_x_string_pairs": evals})).unwrap());
+        std::process::exit(0);
+    }
     if let Some(only) = args.rest.iter().find_map(|a| a.strip_prefix("--only=")) {
-        cases.retain(|c| c.family() == only);
+        cases.retain(|c| c.family().starts_with(only));
     }
     eprintln!("[C11] {} programs x {} (A) / {} (B) strings; enumeration took {:.1}s", cases.len(), strings.len(), strings_b.len(), rep.elapsed_s());
     let gm = glyph_map();
     let threads = vcore::ncores();
     let chunk = 32usize;
     let n_chunks = cases.len().div_ceil(chunk);
+    // safety caps only (an overloaded machine); the tiers are sized for < 40 s / < 15 min
     let deadline_s: f64 = match args.tier {
-        Tier::Quick => 50.0,
+        Tier::Quick => 150.0,
         Tier::Thorough => 1500.0,
-    };
+    } * vcore::budget_scale();
     let start = std::time::Instant::now();
     let skipped = std::sync::atomic::AtomicU64::new(0);
     // chunks are taken round-robin over the whole list so that a deadline would thin out
@@ -1753,7 +2408,7 @@ fn main() {
                 continue;
             }
             let case = cases[idx].build();
-            let strs = if case.family == "B" { &strings_b } else { &strings };
+            let strs = &string_sets[string_set_of(&cases[idx], &plan)];
             evaluate(&case, strs, &gm, &mut st, false, idx % 8 == 0);
         }
         st
@@ -1790,6 +2445,24 @@ fn main() {
     rep.set("pairs_ignore_rule_fired", st.ignore_pairs);
     rep.set("pairs_nested_named_lookup_fired", st.nested_pairs);
     rep.set("pairs_ignoremarks_skipping_mattered", st.skip_pairs);
+    rep.set("pairs_skipping_mattered_under_mark_filtering_set_or_attachment_type", st.mark_class_skip_pairs);
+    {
+        let mut total: BTreeMap<String, u64> = BTreeMap::new();
+        for (k, v) in &st.ctx_formats {
+            *total.entry(k.split('/').nth(1).unwrap_or("").to_string()).or_default() += v;
+        }
+        rep.set("compiled_contextual_lookups_by_subtable_format", json!(total));
+        rep.set("compiled_contextual_lookups_by_family_and_subtable_format", json!(st.ctx_formats));
+        let fam: BTreeMap<String, Json> = st
+            .by_family
+            .iter()
+            .map(|(k, v)| (k.clone(), json!({"programs_compiled": v[0], "evaluations": v[1], "programs_nontrivial": v[2]})))
+            .collect();
+        rep.set("by_family", json!(fam));
+    }
+    rep.set("max_string_length_family_I", plan.max_len_i as u64);
+    rep.set("max_string_length_family_F", plan.max_len_f as u64);
+    rep.set("max_string_length_family_G", plan.g_max_len as u64);
     rep.set("pairs_ligature_longest_match_decided", st.liga_longest_pairs);
     rep.set("distinct_lookup_type_combinations", st.combos.len() as u64);
     rep.set("lookup_type_combinations", json!(st.combos.iter().take(60).collect::<Vec<_>>()));
@@ -1806,13 +2479,15 @@ fn main() {
     rep.set("programs_skipped_deadline", skipped);
     rep.set("exhaustive", skipped == 0);
 
-    rep.assume("glyph set {a b c d f_f acutecomb} (+.notdef), GDEF classes written explicitly in every program: a-d base, f_f ligature, acutecomb mark");
-    rep.assume("program space = A1 (one lookup: every ordered sequence of distinct rules of one type from the rule alphabet, x flag {0, IgnoreMarks, RightToLeft} x form {rules in the feature, lookup block in the feature, lookup block before the feature + reference}) + A2 (two lookups, flags {0, IgnoreMarks}, listed form pairs; contextual rules with `lookup NAME` bind NAME to the first lookup) [+ A3 thorough: three one-rule lookups] + B (feature bodies `items [script latn; items [language TRK [exclude_dflt]; items]]` x 4 languagesystem preludes x 3 trailing kern features); bounds are in programs_by_family");
+    rep.assume("glyph set {a b c d f_f acutecomb gravecomb dotbelowcomb} (+.notdef), GDEF classes written explicitly in every program: a-d base, f_f ligature, the three *comb glyphs marks; strings of families A and B over the first six glyphs, of family I over {a b c d f_f}, of family F over {a b f_f acutecomb gravecomb dotbelowcomb}, of family G over {a b c d}");
+    rep.assume("program space = A1 (one lookup: every ordered sequence of distinct rules of one type from the rule alphabet, x flag {0, IgnoreMarks, RightToLeft} x form {rules in the feature, lookup block in the feature, lookup block before the feature + reference}) + A2 (two lookups, flags {0, IgnoreMarks}, listed form pairs; contextual rules with `lookup NAME` bind NAME to the first lookup) [+ A3 thorough: three one-rule lookups] + B (feature bodies `items [script latn; items [language TRK [exclude_dflt]; items]]` x 4 languagesystem preludes x 3 trailing kern features) + I2 (every ordered pair of distinct rules of the in-line contextual alphabet `sub [d|f_f]? M' [d]? by R;` with M in {a, [a b], [c b], [b a], [a-c]}, R in {d, f_f, [c d], [d a]}, in-line ligatures `sub M1' M2' by f_f|d` with class components and in-line multiple substitutions, all under four contexts; as one lookup or as two lookup blocks) [+ I3 thorough: every ordered triple over reduced alphabets] + F2 (two runs of one rule each from a 14-rule alphabet whose outcome depends on what the lookup sees, each run under every flag of the flag alphabet {0, IgnoreMarks, IgnoreLigatures, UseMarkFilteringSet [acutecomb] / @M1=[gravecomb] / [acutecomb dotbelowcomb], MarkAttachmentType [acutecomb] / @M2=[gravecomb dotbelowcomb]} [thorough: + IgnoreBaseGlyphs, IgnoreLigatures+UseMarkFilteringSet, RightToLeft+MarkAttachmentType], written directly in the feature or as two lookup blocks) [+ F3 thorough: three runs over reduced alphabets] + G (one contextual lookup = every prefix, ascending or descending, of the list of all class tuples over a two-element pool {glyphs a|b, classes [a b]|[c d], overlapping classes [a b]|[b c], class [a b]|glyph c} with 0..2 backtrack, 1..2 input, 0..1 lookahead positions, at most 4 positions [thorough 0..3, 1..2, 0..2, at most 5]; rule k replaces in-line by the k-th glyph of (f_f d c b a) cyclically, or calls one of two named lookups); bounds are in programs_by_family");
+    rep.assume("an in-line replacement by several glyphs in a contextual rule (`sub a' b by c d;`) is read as the contextual form of a multiple substitution, like the in-line single and ligature forms of spec 5.f.i; the marked glyph is a single glyph");
+    rep.assume("lookup flags follow OpenType: IgnoreBaseGlyphs/IgnoreLigatures/IgnoreMarks hide GDEF classes 1/2/3; UseMarkFilteringSet hides the marks outside the set; MarkAttachmentType hides the marks outside the class; the classes named by the flag alphabet contain marks only and MarkAttachmentType classes are pairwise disjoint (spec 4.d); a lookupflag statement between two rules of the same type starts a new lookup whenever it changes any part of the flag, including only the mark filtering set");
     rep.assume("lookups are judged by behaviour only; RightToLeft has no behavioural effect on the generated lookup types and is therefore only checked for not disturbing the result");
     rep.assume("excluded as not fixed by the specification (reference returns Ambiguous, counted in programs_excluded_by_reference / evaluations_skipped_as_ambiguous): two rules of a lookup with overlapping targets; duplicate ligature sequences; specific glyph pair after a class pair; class pairs whose first classes overlap partially, or are equal with overlapping second classes; all-zero pair values; value records on the second glyph of a pair; single substitution adjacent to multiple/ligature substitution outside a lookup block (implementations fold them into one lookup); a lookupflag statement that does not change the flag between rules; lookup blocks inside a feature inheriting a non-zero feature-level lookupflag; rules after such a block or after a reference to a lookup with another flag without a fresh lookupflag statement; script/language statements while a lookupflag is set; language before script; repeated script/language; explicit `language dflt`; languagesystem with a language but not the script's dflt; ignore rules with several marked glyphs; contextual rules nesting contextual lookups; nested lookups that change the string length before another nested lookup, consume glyphs outside the marked input, or sit on a glyph their own flag ignores");
     rep.assume("language systems: only requests for language systems the source registers with at least one lookup of the table are shaped, each table enabled only if the source registers lookups of that table there (no reliance on script/language fallback); the set of language systems with lookups must equal the registered set per table");
     rep.assume("programs fea-rs rejects are counted, not judged (C13 covers the front end); a fea-rs panic on a program of the subset is reported");
-    rep.assume("GPOS contextual rules, mark/cursive attachment, variable values, aalt/size/feature parameters, alternates, reverse chaining, `subtable;`, mark filtering sets are outside the subset");
+    rep.assume("GPOS contextual rules, mark/cursive attachment, variable values, aalt/size/feature parameters, alternates, reverse chaining, `subtable;`, MarkAttachmentType together with UseMarkFilteringSet in one statement, mark classes of a lookupflag that contain non-mark glyphs, a lookupflag statement after rules inside a lookup block, in-line multiple substitution of a marked class are outside the subset");
 
     if !st.engine_disagreements.is_empty() {
         eprintln!("[C11] the two readers of the binary disagree on {} cases (see evidence: engine_disagreements)", st.engine_disagreements.len());
